@@ -82,6 +82,8 @@ ALWAYS_INLINE = {
     "cache::sync::CacheProcessor::on_evict",          # handle_item: prepare_evict(&item); callback.on_evict(item)
     "cache::r#async::CacheProcessor::on_evict",
     "ttl::cleanup_bucket",                            # storage_bucket(t) - 1
+    "cache::sync::Item::is_update",                   # matches!(self, Item::Update { .. })
+    "cache::r#async::Item::is_update",
 }
 
 
@@ -107,6 +109,11 @@ class Facts:
         self.by_spath = defaultdict(list)
         for b in self.bodies:
             self.by_spath[b.spath].append(b)
+        try:
+            import lib
+            lib.ALL_FACTS.append(self)
+        except ImportError:
+            pass
 
     def _undo_renames(self, d):
         """Private functions and fields that were merely renamed get their reference names back
@@ -135,6 +142,16 @@ class Facts:
             par = strip_generics(b.get("parent", ""))
             cands = [m for m, v in missing.items() if v["sig"] == b.get("sig", "") and v["parent"] == par and v.get("impl_trait") == b.get("impl_trait")]
             if len(cands) == 1 and cands[0] not in fn_map.values():
+                fn_map[sp] = cands[0]
+        # a free function turned into a method / associated function of a type of the same module (or
+        # back): same name, same signature, another parent
+        for sp, b in present.items():
+            if sp in kf or sp in fn_map or not b["span"]["f"].startswith("src/") or "::test" in sp:
+                continue
+            name = sp.split("::")[-1]
+            mod = sp.split("::")[0]
+            cands = [m for m, v in missing.items() if m.split("::")[-1] == name and m.split("::")[0] == mod and v["sig"] == b.get("sig", "") and m not in fn_map.values()]
+            if len(cands) == 1:
                 fn_map[sp] = cands[0]
         # field renames
         fld_map = {}  # (owner adt path, variant idx, field idx) -> (new name, reference name)
@@ -165,13 +182,16 @@ class Facts:
             sp = strip_generics(p_)
             for new_sp, (nseg, oseg) in seg_map.items():
                 if sp == new_sp or sp.startswith(new_sp + "::"):
+                    same_parent = new_sp.rsplit("::", 1)[0] == fn_map[new_sp].rsplit("::", 1)[0]
                     # replace the last occurrence of ::nseg (followed by end, `::` or `<`)
                     i = p_.rfind("::" + nseg)
                     while i >= 0:
                         j = i + 2 + len(nseg)
                         if j == len(p_) or p_[j] in ":<":
                             if strip_generics(p_[:j]) == new_sp:
-                                return p_[:i + 2] + oseg + p_[j:]
+                                if same_parent:
+                                    return p_[:i + 2] + oseg + p_[j:]
+                                return fn_map[new_sp] + p_[j:]
                         i = p_.rfind("::" + nseg, 0, i)
             return p_
 
@@ -229,7 +249,10 @@ class Facts:
                 for bb in x["blocks"]:
                     t = bb["term"]
                     if t and t["k"] == "call" and re.search(r"ops::(Fn::call|FnMut::call_mut|FnOnce::call_once)$", t.get("callee", "")):
-                        return True
+                        # the callee value is of a generic parameter type (`F`), not a closure written here
+                        ty0 = (t.get("argtys") or [""])[0].replace("&mut ", "").replace("&", "").strip()
+                        if re.match(r"^[A-Z][A-Za-z0-9]*$", ty0):
+                            return True
             return False
         helpers = {strip_generics(b["path"]): b for b in raws if is_new(b) and not calls_fn_value(b)}
         # thin wrappers of the reference tree that a refactoring may as well write out at the call
@@ -950,8 +973,13 @@ def edge_literals(body, bi):
             rest = [x for x in allv if x not in seen]
             if len(rest) == 1:
                 out.append((t["o"], ("variant", scrut, rest[0]), True))
+            elif len(seen) == 1 and None not in seen:
+                # `matches!(x, E::A { .. })` on an enum with several other variants: not A on the otherwise edge
+                out.append((t["o"], ("variant", scrut, list(seen)[0]), False))
             else:
                 out.append((t["o"], None, True))
+        elif len(seen) == 1 and None not in seen:
+            out.append((t["o"], ("variant", scrut, list(seen)[0]), False))
         else:
             out.append((t["o"], None, True))
         return out
@@ -1027,6 +1055,13 @@ class PathState:
         if nl is self.lits and nh is self.hist:
             return self
         return PathState(nl, self.user, nh)
+
+    def set_lit(self, atom, val):
+        """Record a fact that is not a branch decision (a flag assignment): lits only, replacing an older value."""
+        nl = frozenset(x for x in self.lits if x[0] != atom) | {(atom, val)}
+        if nl == self.lits:
+            return self
+        return PathState(nl, self.user, self.hist)
 
     def kill(self, pred):
         n = frozenset((a, v) for a, v in self.lits if not pred(a))
@@ -1133,6 +1168,14 @@ def dataflow(body, init_user=None, node_fn=None, edge_fn=None, max_states=4096, 
             tg = assigned_targets(body, bi, si) if track_lits else []
             if track_lits and si == n_st and node["k"] == "call":
                 tg = list(tg) + call_kills(body, node)
+            flag = flag_src = None
+            if track_lits and si < n_st and node["k"] == "assign" and not node["pl"]["p"] and node["rv"]["k"] == "use" and body.locals[node["pl"]["l"]]["ty"] == "bool":
+                op_ = node["rv"]["op"]
+                if op_.get("k") == "const" and op_.get("ty") == "bool" and "v" in op_:
+                    flag = (norm(body.place_expr(node["pl"], False)), bool(op_["v"]))
+                elif op_.get("k") in ("copy", "move") and not op_["pl"]["p"]:
+                    flag = (norm(body.place_expr(node["pl"], False)), None)
+                    flag_src = norm(body.place_expr(op_["pl"], False))
             for s in states:
                 outs = None
                 if node_fn is not None:
@@ -1145,6 +1188,17 @@ def dataflow(body, init_user=None, node_fn=None, edge_fn=None, max_states=4096, 
                     if tg:
                         for tgt in tg:
                             o = o.kill(lambda a, tgt=tgt: mentions(a, tgt))
+                    if flag is not None:
+                        # a boolean flag: `x = true / false` is known until x is written again, and a plain copy
+                        # `y = x` carries what is known about x (a later `if y` then takes one branch only)
+                        fx, fv = flag
+                        if fv is not None:
+                            o = o.set_lit(fx, fv)
+                        else:
+                            src = flag_src
+                            v = o.value(src)
+                            if v is not None:
+                                o = o.set_lit(fx, v)
                     new_states.add(o)
             states = new_states
             total += len(states)
